@@ -13,23 +13,39 @@ pub type Item = Result<ProguardRecord<'static>, ParseError<'static>>;
 
 pub static DUMMY: [u8; 64] = [b'x'; 64];
 
-static mut RECS: *const Item = core::ptr::null();
-static mut TOTAL: usize = 0;
+pub const CAP: usize = 56;
+const NO_ITEM: Option<Item> = None;
+static mut STREAM: [Option<Item>; CAP] = [NO_ITEM; CAP];
+static mut TOTAL: usize = 0x7e57_0001; // NB: a `static mut` initialised to 0usize gets aliased with constant allocations (Cap::ZERO) by Kani 0.68
 
-/// Install the stream; returns the dummy source bytes to build the mapping from.
+/// Install the stream (copied by value into a static); returns the dummy
+/// source bytes to build the mapping from.
 pub fn set(recs: &[Item]) -> &'static [u8] {
     unsafe {
-        RECS = recs.as_ptr();
+        let mut i = 0;
+        while i < recs.len() {
+            STREAM[i] = Some(recs[i].clone());
+            i += 1;
+        }
         TOTAL = recs.len();
     }
     &DUMMY[..recs.len()]
+}
+
+pub fn item_at(idx: usize) -> Item {
+    unsafe {
+        match &STREAM[idx] {
+            Some(it) => it.clone(),
+            None => unreachable!(),
+        }
+    }
 }
 
 /// Stub with the exact signature of `mapping::parse_proguard_record`.
 pub fn parse_stub(bytes: &[u8]) -> (Result<ProguardRecord, ParseError>, &[u8]) {
     let total = unsafe { TOTAL };
     let idx = total - bytes.len();
-    let item: Item = unsafe { (*RECS.add(idx)).clone() };
+    let item: Item = item_at(idx);
     (item, &bytes[1..])
 }
 
@@ -37,7 +53,7 @@ pub fn parse_stub(bytes: &[u8]) -> (Result<ProguardRecord, ParseError>, &[u8]) {
 /// `ProguardRecordIter::next` under cfg(kani)): when a stream is installed,
 /// serve the next injected item instead of parsing.
 pub fn active() -> bool {
-    unsafe { !RECS.is_null() }
+    unsafe { TOTAL != 0x7e57_0001 }
 }
 
 pub fn next_item<'s>(slice: &mut &'s [u8]) -> Option<Result<ProguardRecord<'s>, ParseError<'s>>> {
@@ -46,7 +62,17 @@ pub fn next_item<'s>(slice: &mut &'s [u8]) -> Option<Result<ProguardRecord<'s>, 
     }
     let total = unsafe { TOTAL };
     let idx = total - slice.len();
-    let item: Item = unsafe { (*RECS.add(idx)).clone() };
+    let item: Item = item_at(idx);
     *slice = &slice[1..];
     Some(item)
+}
+
+pub fn dbg_total(n: usize) {
+    unsafe { TOTAL = n; }
+}
+pub fn dbg_dummy(n: usize) -> &'static [u8] {
+    &DUMMY[..n]
+}
+pub fn dbg_stream(recs: &[Item]) {
+    unsafe { STREAM[0] = Some(recs[0].clone()); }
 }
